@@ -169,13 +169,25 @@ func checkC06(r *core.Run) {
 			continue
 		}
 		info := fn.Pkg.TypesInfo
+		// the status a write step writes: the last status constant among its arguments (the DAO's update takes the
+		// expected old status before the new one), or the Status field of the record literal handed to the insert
 		statusArg := func(call *ast.CallExpr) string {
+			out := ""
 			for _, a := range call.Args {
 				if c := core.ConstObj(info, a); c != nil && strings.HasPrefix(c.Name(), "Status") {
-					return c.Name()
+					out = c.Name()
 				}
 			}
-			return ""
+			if out == "" {
+				for _, a := range call.Args {
+					if cl := findCompositeLit(fn, a); cl != nil {
+						if c := core.ConstObj(info, litField(cl, "Status")); c != nil && strings.HasPrefix(c.Name(), "Status") {
+							out = c.Name()
+						}
+					}
+				}
+			}
+			return out
 		}
 		sp := &flow.Spec{W: w, Depth: 0, Classify: func(pkg *packages.Package, call *ast.CallExpr, callee *types.Func) []flow.Tag {
 			if callee == nil {
